@@ -158,7 +158,7 @@ static W2Plan gen_w2(const std::string &prop, uint64_t vseed, uint64_t index) {
         n.loopback = false;
         p.nics.push_back(n);
     }
-    { size_t hl = r.chance(0.3) ? (size_t)r.pickl({0, 1, 31, 32, 33, 63}) : r.below(40); p.hostname.clear(); for (size_t i = 0; i < hl; i++) p.hostname.push_back((char)r.range('a', 'z')); }
+    { size_t hl = r.chance(0.4) ? (size_t)r.pickl({0, 1, 31, 32, 33, 34, 40, 63, 64}) : r.below(40); p.hostname.clear(); for (size_t i = 0; i < hl; i++) p.hostname.push_back((char)r.range('a', 'z')); }
     p.family = (int)r.below(4);
     // schedule knobs (swarm)
     switch (r.below(4)) {
@@ -580,7 +580,12 @@ int w2_getifaddrs(struct ifaddrs **out) {
     return 0;
 }
 void w2_freeifaddrs(struct ifaddrs *a) { if (a) g_ifaddrs_outstanding--; while (a) { struct ifaddrs *n = a->ifa_next; free(a->ifa_name); free(a->ifa_addr); free(a); a = n; } }
-int w2_gethostname(char *buf, size_t len) { size_t n = std::min(len ? len - 1 : 0, g_plan.hostname.size()); memcpy(buf, g_plan.hostname.data(), n); if (len) buf[n] = 0; return 0; }
+int w2_gethostname(char *buf, size_t len) {
+    // glibc: a name that does not fit together with its terminator is truncated AND reported as an error (ENAMETOOLONG); musl truncates silently
+    bool glibc = (mix64(g_plan.seed, 0x61bc) & 3) != 0;
+    if (glibc && len < g_plan.hostname.size() + 1) { if (len) memcpy(buf, g_plan.hostname.data(), len); g_probe["gethostname_enametoolong"]++; errno = ENAMETOOLONG; return -1; }
+    size_t n = std::min(len ? len - 1 : 0, g_plan.hostname.size()); memcpy(buf, g_plan.hostname.data(), n); if (len) buf[n] = 0; return 0;
+}
 int w2_clock_gettime(clockid_t, struct timespec *ts) { ts->tv_sec = (time_t)(g_now / 1000); ts->tv_nsec = (long)(g_now % 1000) * 1000000L; return 0; }
 int w2_nanosleep(const struct timespec *req, struct timespec *) {
     if (!g_active || tl_id < 0) return 0;
